@@ -1,4 +1,5 @@
 import Zlink.Proofs.IdlIfaceRT
+import Zlink.Proofs.IdlNE2
 import Zlink.Proofs.IdlLayoutIface
 import Zlink.Proofs.IdlSound
 import Zlink.Proofs.IdlTextSound4
@@ -132,28 +133,36 @@ theorem C13_sound_tree (s : In) (a : Iface) (h : parseInterface s = .ok a) : ifa
     homogeneous (all typed, or all untyped), members of the three kinds in any order.
     Whatever `parse_interface` accepts is, after `str::trim`, a text of that grammar **denoting exactly
     the returned description**: every byte of the accepted text is a token of the description, part of a
-    comment attached to it, or layout — nothing is dropped, nothing invented. (Side condition `ifaceNE`:
-    no inline enum without variants in the result, which the parser can only produce by running out of
-    fuel; the correspondence run's oracle checks it on every accepted text.) -/
-theorem C13_sound_text (s : In) (a : Iface) (h : parseInterface s = .ok a) (hne : ifaceNE a = true) :
-    IfaceS a (trim s) := parseInterface_textSound s a h hne
+    comment attached to it, or layout — nothing is dropped, nothing invented. (No side condition: that the
+    result contains no inline or custom enum without variants is `C13_no_empty_enum`.) -/
+theorem C13_sound_text (s : In) (a : Iface) (h : parseInterface s = .ok a) :
+    IfaceS a (trim s) := parseInterface_textSound s a h (parseInterface_ne s a h)
+
+/-- **No enum without variants, ever**: `( gap )` in a type position is the empty struct. `struct_type` is tried
+    first and accepts it - which needs the two layout skippers of the parser (`ws` between tokens,
+    `parse_preceding_comments` in front of a field) to agree on what a comment is (`wsF_pcF`; they did not before
+    fix ee9d3d0) - so `enum_type` is never asked; the fuel the member parsers pass (`8·|input| + 64`) is enough at
+    every nesting depth (`QN`: induction over the nine mutually recursive type parsers with the invariant
+    `8·|input| + c ≤ fuel`); a custom enum gets at least one variant from the member loop of `type_def`. -/
+theorem C13_no_empty_enum (s : In) (a : Iface) (h : parseInterface s = .ok a) : ifaceNE a = true :=
+  parseInterface_ne s a h
 
 /-- **The two grammars agree on every laid-out text**: a text of the completeness grammar `IfaceCoreL` is
     also a text of the soundness grammar `IfaceS`, for the same description (it parses to it by
     `C13_layout`, hence is accounted for byte by byte by `C13_sound_text`). -/
-theorem C13_grammars_consistent {a : Iface} {core : In} (h : IfaceCoreL a core) (hne : ifaceNE a = true) : IfaceS a core := by
+theorem C13_grammars_consistent {a : Iface} {core : In} (h : IfaceCoreL a core) : IfaceS a core := by
   have hp := C13_layout h [] [] rfl rfl
   have ht : trim core = core := by
     obtain ⟨c, mid, d, e, hc, hd⟩ := h.shape
     have := trim_gaps [] [] c d mid rfl rfl hc hd
     rw [e]; simpa using this
-  have := C13_sound_text _ a hp hne
+  have := C13_sound_text _ a hp
   simpa [ht] using this
 
 /-- e.g. the member list of a `type` cannot mix variants and typed fields in an accepted text, and no
     member of it is dropped: a `type` member of an accepted text is one of the three homogeneous forms. -/
-theorem C13_type_members_homogeneous (i : In) (t : CT) (r : In) (h : typeDef i = .ok t r) (hne : ctNE t = true) :
-    ∃ s, i = s ++ r ∧ TypeS t s := typeDef_split i t r h hne
+theorem C13_type_members_homogeneous (i : In) (t : CT) (r : In) (h : typeDef i = .ok t r) :
+    ∃ s, i = s ++ r ∧ TypeS t s := typeDef_split i t r h (typeDef_ne i t r h)
 
 /-- The statement without the side condition on inline enums (kept visible): it is *false* for a
     constructor-built inline enum with a commented variant, whose only rendering is the multi-line form
